@@ -184,7 +184,7 @@ Definition cur_next (s : cst) : res cst bool :=
 Definition cur_push (v : T) (s : cst) : res cst unit :=
   bind (checked MlinkList.push_ncalls_check s) (fun e s =>
   bind (load e s) (fun c s =>
-  bind (alloc (v, snd c) s) (fun added s =>
+  bind (alloc (v, dec (MlinkList.push_added_link (enc (snd c)))) s) (fun added s =>
   bind (load (snd s) s) (fun cp s =>
   store (snd s) (fst cp, dec (MlinkList.push_newlink (Z.of_nat added))) s)))).
 
